@@ -83,8 +83,11 @@ def page_reuse_history(rng, res):
             m.db.sql("SELECT ja.jav, jb.jbv FROM ja JOIN jb ON ja.jak = jb.jbk;", timeout=60)
         if rng.random() < 0.5:
             m.delete("ja")
-        m.create("jc", via_sql=rng.random() < 0.5, ncols=2, types=["i", "s"], kinds_pool="ns", colnames=["jck", "jcv"])
-        fill("jc", rng.choice([40, 80]), 200)
+        if rng.random() < 0.5:
+            m.create("jc", via_sql=rng.random() < 0.5, ncols=2, types=["i", "s"], kinds_pool="ns", colnames=["jck", "jcv"])
+            fill("jc", rng.choice([40, 80]), 200)
+        # (otherwise nothing is allocated between the last join and the shutdown: the temporary pages' ids lie beyond the end of the db
+        #  file when it is closed, reusable and never written)
         for cycle in range(2):
             before = {n: m.db.cmd("scan " + n) for n in m.tables}
             if not m.restart(clean=True):
@@ -98,7 +101,8 @@ def page_reuse_history(rng, res):
             # allocations after the reopen
             m.create("jd%d" % cycle, via_sql=True, ncols=2, types=["i", "s"], colnames=["jdk", "jdv"])
             fill("jd%d" % cycle, 30, 200)
-            fill("jc", 20, 200)
+            if "jc" in m.tables:
+                fill("jc", 20, 200)
             for n in m.tables:
                 m.verify(n, nq=1, what="page reuse, after allocations following restart %d" % (cycle + 1))
                 m.verify_index(n, what="page reuse, after allocations following restart %d" % (cycle + 1))
@@ -110,6 +114,37 @@ def page_reuse_history(rng, res):
         return m.fails
     finally:
         m.close()
+
+
+def big_txn_clean_restart(res, rng, nrows):
+    """one committed transaction whose log records exceed the log buffer (the buffer is swapped in the middle of it), a clean
+    shutdown and a reopen: every row of it is still there, and the reopen is a clean one (no undo of committed work)"""
+    from dbsession import DB, scan_rows
+    db = DB(mem_kb=8000)
+    try:
+        if not db.open().startswith("ok"):
+            return [("open", "database does not start")]
+        db.cmd("mktable bt k:i:s,g:i:n,v:s:n")
+        db.cmd("begin x")
+        for i in range(nrows):
+            r = db.cmd("tsql x INSERT INTO bt(k,g,v) VALUES (%d, %d, '%s');" % (i, i % 7, "w%05d" % i + "x" * (225 + i % 20)))
+            if not r.startswith("ok"):
+                return [("\n".join(l[:100] for l in db.log[-4:]), "insert %d of the big transaction failed: %s" % (i, r))]
+        db.cmd("commit x")
+        before = scan_rows(db.cmd("scan bt", timeout=60))
+        db.cmd("close", timeout=120)
+        if not db.open().startswith("ok"):
+            return [("# mktable bt; begin; %d inserts of ~240 byte rows; commit; close; open" % nrows, "reopen after a clean shutdown fails: %s" % db.dead)]
+        after = scan_rows(db.cmd("scan bt", timeout=60))
+        cnt = db.sql("SELECT k FROM bt WHERE k >= %d;" % (nrows - 5))
+        res.note_case("bigtxn-clean|%d" % nrows, True)
+        res.evaluations += 1
+        if after != before or len(before.split(";")) != nrows:
+            return [("# mktable bt k:i:s,g:i:n,v:s:n; begin x; %d x tsql x INSERT (rows of ~240 bytes: more log than LogBufferSize); commit x; close; open; scan bt" % nrows,
+                     "a clean shutdown and reopen changed the table: %d rows before (inserted %d), %d after; index lookup of the last keys: %s" % (len(before.split(";")) if before != "ok:" else 0, nrows, len(after.split(";")) if after != "ok:" else 0, cnt[:80]))]
+        return []
+    finally:
+        db.destroy()
 
 
 def btree_probe(res):
@@ -146,7 +181,9 @@ def run(res, replay=None):
         return
     rng = random.Random(res.seed)
     btree_probe(res)
-    for i in range(2 if res.tier == "quick" else 20):
+    for d, w in big_txn_clean_restart(res, rng, 2400 if res.tier == "quick" else 7000):
+        res.oracle_failures.append((d, w))
+    for i in range(4 if res.tier == "quick" else 24):
         for d, w in page_reuse_history(rng, res):
             if len(res.oracle_failures) < 5:
                 res.oracle_failures.append((d, w))
